@@ -122,22 +122,7 @@ func propC08(c *Ctx) {
 	}
 
 	f4 := c.Rule("F4", "K5", "key from id, protocol, source, destination; first/last/more from the header", 6)
-	if fn := c.Fn(f4, "hash.IPv4FragmentHash"); fn != nil {
-		for _, s := range Sites(fn) {
-			if s.Kind != "return" {
-				continue
-			}
-			v := s.Instr.(*ssa.Return).Results[0]
-			for _, need := range []string{"header.IPv4.ID", "header.IPv4.Protocol", "header.IPv4.SourceAddress", "header.IPv4.DestinationAddress"} {
-				c.Check(SliceHasCall(v, need), f4, FuncName(fn)+"/key-uses:"+need, c.pos(s.Instr), "key depends on "+need, "reassembly key no longer depends on "+need+": datagrams differing only there are mixed")
-			}
-		}
-		c.CheckSites(f4, fn, []SiteSpec{{Kind: "call", Target: "hash.Hash3Words", Args: []string{
-			"((header.IPv4.ID($0) << 16) | header.IPv4.Protocol($0))",
-			"((((header.IPv4.SourceAddress($0)[1] << 8) | header.IPv4.SourceAddress($0)[0]) | (header.IPv4.SourceAddress($0)[2] << 16)) | (header.IPv4.SourceAddress($0)[3] << 24))",
-			"((((header.IPv4.DestinationAddress($0)[1] << 8) | header.IPv4.DestinationAddress($0)[0]) | (header.IPv4.DestinationAddress($0)[2] << 16)) | (header.IPv4.DestinationAddress($0)[3] << 24))",
-			"hash.hashIV"}, N: 1, Why: "id and protocol in one word (disjoint bit ranges), all four source bytes, all four destination bytes"}})
-	}
+	fragmentKeyRule(c, f4)
 	if fn := c.Fn(f4, "(*ipv4.endpoint).HandlePacket"); fn != nil {
 		m := map[string]string{"VV": "$2", "VVP": "new(buffer.VectorisedView)@3", "VVR": "new(buffer.VectorisedView)@u", "H": "buffer.VectorisedView.First({VV})", "OFF": "header.IPv4.FragmentOffset({H})", "MF": "(1 & header.IPv4.Flags({H}))", "VALID": "header.IPv4.IsValid({H}, buffer.VectorisedView.Size({VV}))"}
 		c.CheckSites(f4, fn, []SiteSpec{
@@ -293,4 +278,28 @@ func splitTop(s string) []string {
 	}
 	out = append(out, strings.TrimSpace(s[start:]))
 	return out
+}
+
+// fragmentKeyRule: the IPv4 reassembly key depends on the identification,
+// the protocol and ALL bytes of the source and of the destination address
+// (RFC 791). Shared by C08 (F4), C11 (U8) and C13 (I6): a datagram handed to a
+// UDP socket or answered as an echo is the payload of ONE sender's datagram
+// only if fragments of different senders never share a reassembly queue.
+func fragmentKeyRule(c *Ctx, f4 string) {
+	if fn := c.Fn(f4, "hash.IPv4FragmentHash"); fn != nil {
+		for _, s := range Sites(fn) {
+			if s.Kind != "return" {
+				continue
+			}
+			v := s.Instr.(*ssa.Return).Results[0]
+			for _, need := range []string{"header.IPv4.ID", "header.IPv4.Protocol", "header.IPv4.SourceAddress", "header.IPv4.DestinationAddress"} {
+				c.Check(SliceHasCall(v, need), f4, FuncName(fn)+"/key-uses:"+need, c.pos(s.Instr), "key depends on "+need, "reassembly key no longer depends on "+need+": datagrams differing only there are mixed")
+			}
+		}
+		c.CheckSites(f4, fn, []SiteSpec{{Kind: "call", Target: "hash.Hash3Words", Args: []string{
+			"((header.IPv4.ID($0) << 16) | header.IPv4.Protocol($0))",
+			"((((header.IPv4.SourceAddress($0)[1] << 8) | header.IPv4.SourceAddress($0)[0]) | (header.IPv4.SourceAddress($0)[2] << 16)) | (header.IPv4.SourceAddress($0)[3] << 24))",
+			"((((header.IPv4.DestinationAddress($0)[1] << 8) | header.IPv4.DestinationAddress($0)[0]) | (header.IPv4.DestinationAddress($0)[2] << 16)) | (header.IPv4.DestinationAddress($0)[3] << 24))",
+			"hash.hashIV"}, N: 1, Why: "id and protocol in one word (disjoint bit ranges), all four source bytes, all four destination bytes"}})
+	}
 }
